@@ -110,7 +110,15 @@ func (s *S) Run(c *scen.Ctx) {
 	// the client's own idle time-out: a connection with a request waiting for its answer is in use
 	idle := []time.Duration{0, 0, time.Second, 2 * time.Second}[simrt.Draw(4, "c11.clientidle")]
 	c.Describe("client_idle_timeout", idle.String())
-	comm := world.NewClient(world.ClientOpts{InvokeTimeoutMs: s.timeout, IdleTimeout: idle})
+	ncallers := 1 + simrt.Draw(2, "c11.callers")
+	// an admission limit (objqueuemax) that just fits the application's concurrency: calls that
+	// failed while the server was away hold no place in the queue afterwards
+	var qmax int32
+	if simrt.Draw(2, "c11.objqueuemax") == 1 {
+		qmax = int32(ncallers)
+	}
+	c.Describe("obj_queue_max", qmax)
+	comm := world.NewClient(world.ClientOpts{InvokeTimeoutMs: s.timeout, IdleTimeout: idle, ObjQueueMax: qmax})
 	if s.realPeer {
 		s.runRealPeer(c)
 	} else {
@@ -123,7 +131,6 @@ func (s *S) Run(c *scen.Ctx) {
 		s.srvs = append(s.srvs, srv)
 	}
 	s.prx = world.Proxy(comm, "App.Srv.Obj@tcp -h 10.0.0.9 -p 1100 -t 3000")
-	ncallers := 1 + simrt.Draw(2, "c11.callers")
 	per := 2 + simrt.Draw(7, "c11.per")
 	c.Describe("callers", ncallers)
 	c.Describe("calls_per_caller", per)
